@@ -160,7 +160,7 @@ Print Assumptions tie_enum_values.
 Theorem tie_enum_shapes :
   wishbone_CycleType_shape = (cti_width, false) /\ wishbone_BurstTypeExt_shape = (bte_width, false) /\
   gpio_PinMode_shape = (2, false).
-Proof. repeat split; vm_compute; reflexivity. Qed.
+Proof. repeat split; reflexivity. Qed.
 Print Assumptions tie_enum_shapes.
 
 (* Element.Access.readable / writable *)
@@ -804,7 +804,7 @@ Lemma ratio_pow2 d g : wb_width_ok d = true -> wb_width_ok g = true -> g <= d ->
 Proof.
   intros Hd Hg L. apply wb_width_ok_spec in Hd. apply wb_width_ok_spec in Hg.
   destruct Hd as [->|[->|[->| ->]]], Hg as [->|[->|[->| ->]]]; try lia;
-    (eexists; split; [vm_compute; reflexivity|lia]).
+    (eexists; split; [cbv; reflexivity|lia]).
 Qed.
 
 Theorem tie_wbdec_ports : forall a d gran fs al, gran_ok gran ->
@@ -862,7 +862,7 @@ Lemma sram_addr size d g j : is_pow2 size = true -> wb_width_ok d = true -> wb_w
 Proof.
   intros P Hd Hg L1 L2 K J. apply wb_width_ok_spec in Hd. apply wb_width_ok_spec in Hg.
   destruct Hd as [->|[->|[->| ->]]], Hg as [->|[->|[->| ->]]]; try lia;
-    vm_compute in J; injection J as <-;
+    compute in J; injection J as <-;
     match goal with |- context [size * ?g / ?d] =>
       match goal with |- context [_ + ?j] => change d with (2 ^ j * g); apply sram_addr_aux; auto; lia end end.
 Qed.
@@ -1225,3 +1225,19 @@ Theorem tie_defaults :
   gen_csr_FieldAction_default_members = [].
 Proof. repeat split; reflexivity. Qed.
 Print Assumptions tie_defaults.
+
+(* ================================================================ interface properties: forwarded to the signature *)
+Theorem tie_iface_props :
+  (forall i, gen_csr_Interface_get_addr_width i = gen_csr_Signature_get_addr_width (snd (csr_Interface_signature i)) /\
+             gen_csr_Interface_get_data_width i = gen_csr_Signature_get_data_width (snd (csr_Interface_signature i))) /\
+  (forall i, gen_csr_Element_get_width i = gen_csr_Element_Signature_get_width (snd (csr_Element_signature i)) /\
+             gen_csr_Element_get_access i = gen_csr_Element_Signature_get_access (snd (csr_Element_signature i))) /\
+  (forall i, gen_csr_FieldPort_get_shape i = gen_csr_FieldPort_Signature_get_shape (snd (csr_FieldPort_signature i)) /\
+             gen_csr_FieldPort_get_access i = gen_csr_FieldPort_Signature_get_access (snd (csr_FieldPort_signature i))) /\
+  (forall i, gen_event_Source_get_trigger i = gen_event_Source_Signature_get_trigger (snd (event_Source_signature i))) /\
+  (forall i, gen_wishbone_Interface_get_addr_width i = gen_wishbone_Signature_get_addr_width (snd (wishbone_Interface_signature i)) /\
+             gen_wishbone_Interface_get_data_width i = gen_wishbone_Signature_get_data_width (snd (wishbone_Interface_signature i)) /\
+             gen_wishbone_Interface_get_granularity i = gen_wishbone_Signature_get_granularity (snd (wishbone_Interface_signature i)) /\
+             gen_wishbone_Interface_get_features i = gen_wishbone_Signature_get_features (snd (wishbone_Interface_signature i))).
+Proof. repeat split. Qed.
+Print Assumptions tie_iface_props.
